@@ -810,11 +810,11 @@ impl<'tcx> Cx<'tcx> {
                     }
                     v.push(obj(items));
                 }
-                DefKind::Static { .. } => {
+                DefKind::Static { mutability, .. } => {
                     let ty = tcx.type_of(did).instantiate_identity().skip_norm_wip();
                     let mut items = vec![
                         ("path", esc(&self.path(did))),
-                        ("kind", esc("static")),
+                        ("kind", esc(if mutability.is_mut() { "static mut" } else { "static" })),
                         ("ty", esc(&self.ty(ty))),
                         ("span", esc(&self.span(tcx.def_span(did)))),
                     ];
